@@ -1458,6 +1458,7 @@ pub fn run_history<T: Elem>(id: &str, ops: &[WireOp], ctx: &Ctx, out: &mut dyn s
             arm_fault(op.a[0] as i64, op.a.get(1).map_or(!0, |m| *m as i64));
             continue;
         }
+        crate::PROGRESS.fetch_add(1, SeqCst);
         let r = catch_unwind(AssertUnwindSafe(|| exec(&mut pool, op, ctx)));
         let (ticks, fired) = disarm_fault();
         let obs = match r {
